@@ -14,6 +14,10 @@ for sid in ids:
     meta = json.load(open(os.path.join(d, "meta.json")))
     prop = meta["property"]
     thorough = "THOROUGH" in meta.get("check_result", "")
+    if "NOT COUNTED" in meta.get("check_result", ""):
+        rows.append((sid, prop, "not counted (not a violation of the property as worded; see meta.json)"))
+        print(rows[-1], flush=True)
+        continue
     if thorough and not with_thorough:
         rows.append((sid, prop, "skipped (needs the thorough tier; run with --with-thorough)"))
         print(rows[-1], flush=True)
@@ -29,4 +33,4 @@ for sid in ids:
     rows.append((sid, prop, "%s %s (%s, %.0f s)" % (res, cls, "thorough" if thorough else "quick", time.time() - t0)))
     print(rows[-1], flush=True)
 caught = sum(1 for r in rows if r[2].startswith("CAUGHT"))
-print("SUMMARY: %d of %d run seeds caught, %d skipped" % (caught, sum(1 for r in rows if not r[2].startswith("skipped")), sum(1 for r in rows if r[2].startswith("skipped"))))
+print("SUMMARY: %d of %d run seeds caught, %d skipped" % (caught, sum(1 for r in rows if not r[2].startswith("skipped") and not r[2].startswith("not counted")), sum(1 for r in rows if r[2].startswith("skipped"))))
